@@ -218,7 +218,50 @@ def ob_push_file(w, P):
     return x.result()
 
 
-FUNCS = {'ob_push_file': ['core.Cache.push', 'core.Cache._transact', 'core.Disk.store', 'core.Disk._write', 'core.Disk.remove'], 'ob_push_prefix': ['core.Cache.push', 'core.Cache._row_insert', 'core.Cache._transact'], 'ob_push': ['core.Cache.push', 'core.Cache._row_insert', 'core.Cache._cull', 'core.Cache._transact', 'core.Disk.store'],
+def ob_bad_argument(w, P):
+    """a call that is rejected because of an invalid argument (an unknown queue side, an expiry that is not a number, a stream
+    without read(), a prefix that is not a string) is a failed operation like any other: it changes nothing and leaves no value
+    file behind"""
+    x = Ctx(w, P, min_file_size=0, kinds=('int',), cull_limit=0)
+    c = x.c
+    assume_margin(x)
+    k, kc, rc = x.key()
+    case = P['case']
+    x.begin()
+    raised = None
+    try:
+        if case == 'push_side':
+            c.push(b'file-value', side='middle')
+        elif case == 'push_side_prefix':
+            c.push(b'file-value', prefix='a', side='BACK')
+        elif case == 'push_expire':
+            c.push(b'file-value', expire='soon')
+        elif case == 'push_prefix':
+            c.push(b'file-value', prefix=5)
+        elif case == 'pull_side':
+            c.pull(side='middle')
+        elif case == 'peek_side':
+            c.peek(side='middle')
+        elif case == 'set_expire':
+            c.set(k, b'file-value', expire='soon')
+        elif case == 'add_expire':
+            c.add(k, b'file-value', expire='soon')
+        elif case == 'set_read':
+            c.set(k, None, read=True)  # no read() method
+        elif case == 'push_read':
+            c.push(None, read=True)
+        else:
+            raise ValueError(case)
+    except (KeyError, TypeError, ValueError, AttributeError) as e:
+        raised = e
+    x.end()
+    x.add('C08', 'the call is rejected (%s)' % type(raised).__name__, raised is not None)
+    x.add('C08,C03,C10', 'a call rejected for an invalid argument changes nothing', And(unchanged(x.T0, x.T1), spec.same_count(x.T0, x.T1)))
+    x.inv()
+    return x.result()
+
+
+FUNCS = {'ob_bad_argument': ['core.Cache.push', 'core.Cache.pull', 'core.Cache.peek', 'core.Cache.set', 'core.Cache.add', 'core.Disk.store', 'core.Cache._transact'], 'ob_push_file': ['core.Cache.push', 'core.Cache._transact', 'core.Disk.store', 'core.Disk._write', 'core.Disk.remove'], 'ob_push_prefix': ['core.Cache.push', 'core.Cache._row_insert', 'core.Cache._transact'], 'ob_push': ['core.Cache.push', 'core.Cache._row_insert', 'core.Cache._cull', 'core.Cache._transact', 'core.Disk.store'],
          'ob_pull': ['core.Cache.pull', 'core.Cache.peek', 'core.Disk.fetch', 'core.Disk.remove', 'core.Cache._transact']}
 
 
@@ -235,8 +278,13 @@ def jobs(tier):
             add('ob_push', 'C10,C08,C04', weight=N ** 3, N=N, side=side, policy='none')
             for peek in (False, True):
                 add('ob_pull', 'C10,C04,C08,C01', weight=N, must=['queue_empty', 'queue_item'], N=N, side=side, peek=peek)
+        for side in ('back', 'front'):
+            for peek in (False, True):  # stored expiry times of any sign, 0.0 included
+                add('ob_pull', 'C10,C04', weight=N, N=N, side=side, peek=peek, expire_pos=False)
         add('ob_pull', 'C10,C04,C08', N=N, side='front', peek=False, expire_time=True, tag=True)
         add('ob_pull', 'C10,C04,C08', N=N, side='back', peek=True, expire_time=True)
+    for case in ('push_side', 'push_side_prefix', 'push_expire', 'push_prefix', 'pull_side', 'peek_side', 'set_expire', 'add_expire', 'set_read', 'push_read'):
+        add('ob_bad_argument', 'C08,C10,C03', weight=2, N=1, case=case)
     for prefix in PREFIXES:
         for side in ('back', 'front'):
             add('ob_push_prefix', 'C10,C08,C03', weight=6, N=2, side=side, prefix=prefix, kinds=('int',))
